@@ -14,6 +14,7 @@ and libs/crypto (ValidateSignatureValues).  Core Lean only.
 -/
 import LinkVerif.Gen.SigFacts
 import LinkVerif.Go.Keccak
+import LinkVerif.Model.Rlp
 
 namespace Model.SigHash
 open Gen.SigFacts
@@ -22,26 +23,15 @@ abbrev Bytes := List UInt8
 
 /-! ## libs/ser (RLP) for the kinds that occur in signing hashes -/
 
-def beBytesAux : Nat → Nat → Bytes → Bytes
-  | 0, _, acc => acc
-  | fuel + 1, n, acc => if n = 0 then acc else beBytesAux fuel (n / 256) (UInt8.ofNat (n % 256) :: acc)
+/-- minimal big-endian bytes (`big.Int.Bytes`, `putint`); 0 ↦ [].  `Model.Rlp.beBytesF` with fuel `n` (n < 256^n) -/
+def beBytes (n : Nat) : Bytes := Model.Rlp.beBytesF n n
 
-/-- minimal big-endian bytes (`big.Int.Bytes`, `putint`); 0 ↦ [] -/
-def beBytes (n : Nat) : Bytes := beBytesAux 80 n []
+/-- `encbuf.encodeString` (the model of C11, whose injectivity theorems `Props/C08Inj.lean` reuses) -/
+def rlpStr (b : Bytes) : Bytes := Model.Rlp.encStr b
 
-def rlpHead (base : Nat) (len : Nat) : Bytes :=
-  if len < 56 then [UInt8.ofNat (base + len)]
-  else let l := beBytes len; UInt8.ofNat (base + 55 + l.length) :: l
-
-def rlpStr (b : Bytes) : Bytes :=
-  match b with
-  | [x] => if x.toNat < 128 then [x] else rlpHead 128 1 ++ b
-  | _ => rlpHead 128 b.length ++ b
-
-/-- a list item from the concatenation of its element encodings -/
+/-- a list item from its element encodings: `puthead(0xC0, 0xF7, size)` ++ payload -/
 def rlpList (items : List Bytes) : Bytes :=
-  let payload := items.flatten
-  rlpHead 192 payload.length ++ payload
+  Model.Rlp.encHead 0xC0 0xF7 items.flatten.length ++ items.flatten
 
 /-- uint64 / non-negative *big.Int (writeUint, writeBigInt agree) -/
 def encNat (n : Nat) : Bytes := rlpStr (beBytes n)
